@@ -45,6 +45,7 @@ type spec struct {
 	Assumptions []string
 	Exhaustive  bool
 	Post        func(r *run)
+	NeedsTlgen  bool // build /repo/internal/cmd/tlgen and pass its path to the workloads
 	RaceE1      bool // escalate map-routine races to violations
 	RaceE2      bool // escalate sender/sender races below sendPacket to violations
 }
@@ -176,6 +177,19 @@ func runCheck(sp *spec, tier string, seed int64) int {
 				return 2
 			}
 			bins[w.Race] = b
+		}
+	}
+	if sp.NeedsTlgen {
+		out := filepath.Join(root, "out", "bin", "tlgen")
+		cmd := exec.Command("go", "build", "-o", out, ".")
+		cmd.Dir = "/repo/internal/cmd/tlgen"
+		cmd.Env = goEnv()
+		if b, err := cmd.CombinedOutput(); err != nil {
+			fmt.Printf("INCONCLUSIVE property=%s build of tlgen failed (no verdict)\n%v\n%s\n", sp.ID, err, b)
+			return 2
+		}
+		for i := range sp.WLs {
+			sp.WLs[i].Args = "tlgen=" + out
 		}
 	}
 	for _, w := range sp.WLs {
